@@ -181,6 +181,13 @@ def run(prog: Program) -> Results:
                     par = [p for p in ast.walk(g.node) if isinstance(p, ast.BoolOp) and any(x is n for x in ast.walk(p))]
                     if any(f"not isinstance({nm}, Identifier)" in norm(p) for p in par):
                         continue
+                    # … or by the false edge of an isinstance test (`if isinstance(x, Identifier): … elif x.value == …`)
+                    gcfg_ = CFG(g.node)
+                    not_ident = edges_establishing(gcfg_, lambda a, t, _nm=nm: isinstance(a, ast.Call) and callee(a) == "isinstance"
+                                                   and len(a.args) == 2 and norm(a.args[0]) == _nm and "Identifier" in norm(a.args[1]) and t is False)
+                    at = gcfg_.containing(n)
+                    if at is not None and not_ident and gcfg_.all_paths_pass(at, cut_edges=not_ident):
+                        continue
                     value_loads.append((g, n))
     for g, n in value_loads:
         r3.instances += 1
@@ -245,19 +252,24 @@ def run(prog: Program) -> Results:
         idx = loop.target.elts[0].id
         od = [d for d in assignments_to(fn, lst)]
         r5.instances += 1
-        ok = len(od) == 1 and isinstance(od[0].value, ast.ListComp) and norm(od[0].value.generators[0].iter) == f"reversed({sparam})"
+        from sa.seqbuild import _rev as _rv
+        _it, _isrev = _rv(od[0].value.generators[0].iter) if (len(od) == 1 and isinstance(od[0].value, (ast.ListComp, ast.GeneratorExp))) else (None, False)
+        ok = _it is not None and norm(_it) == sparam and _isrev
         r5.ob(ok, {"scan": norm(od[0].value)[:80] if od else None})
         if not ok:
             res.add("R-C10-5", ("_resolve_identifier", "scan order"), ri.loc(od[0] if od else None),
                     f"the lookup does not scan `reversed({sparam})` (innermost scope first)")
+        from sa.seqexpr import canon, single_def_resolver
         want_chain = f"tuple(reversed({lst}[{idx}:]))"
         want_outer = f"tuple(reversed({lst}[{idx} + 1:]))"
+        c_chain, c_outer = ("slice", lst, idx, 0, True), ("slice", lst, idx, 1, True)  # canonical forms (sa/seqexpr.py)
+        _res = single_def_resolver(fn)
         for d in ast.walk(loop):
             if isinstance(d, ast.Assign) and isinstance(d.targets[0], ast.Name):
-                v = d.value.body if isinstance(d.value, ast.IfExp) else d.value
-                if norm(v) == want_chain:
+                cv = canon(d.value, _res)
+                if cv == c_chain:
                     chain_name = d.targets[0].id
-                if norm(v) == want_outer:
+                if cv == c_outer:
                     outer_name = d.targets[0].id
         # every continuation happens in the iteration that found the binder (an inherit clause of layer i shadows plain bindings of
         # the layers outside it)
@@ -275,12 +287,12 @@ def run(prog: Program) -> Results:
         for c in ast.walk(loop):
             if isinstance(c, ast.Call) and isinstance(c.func, ast.Name) and c.func.id in closures and c.func.id != "_inherit_matches":
                 r5.instances += 1
-                a = [norm(x) for x in c.args]
+                ca = [canon(x, _res) for x in c.args]
                 nparams = len(closures[c.func.id].params())
                 if nparams >= 3:
-                    ok = chain_name is not None and outer_name is not None and a[1:3] == [chain_name, outer_name]
+                    ok = len(ca) >= 3 and ca[1] == c_chain and ca[2] == c_outer
                 else:
-                    ok = chain_name is not None and a[1:2] == [chain_name]
+                    ok = len(ca) >= 2 and ca[1] == c_chain
                 r5.ob(ok, {"call": norm(c), "cut_chain": chain_name, "outer_chain": outer_name})
                 if not ok:
                     res.add("R-C10-5", ("_resolve_identifier", "chain argument", c.func.id), ri.loc(c),
@@ -310,41 +322,57 @@ def run(prog: Program) -> Results:
     if acc is None:
         res.unclass("scopes_for_owner: `return tuple(<accumulated chain>)` not found")
         acc = "scopes"
-    seq = []
-    for n in ast.walk(sfo.node):
-        if isinstance(n, ast.Call) and isinstance(n.func, ast.Attribute) and norm(n.func.value) == acc and n.func.attr in ("append", "extend"):
-            seq.append((n.lineno, n.args[0]))
-    seq.sort(key=lambda x: x[0])
+    # the accumulated list read as a sequence of segments (sa/seqbuild.py), each classified by where its scopes come from
+    from sa.seqbuild import SeqBuilder
+    sb = SeqBuilder(sfo.node)
+    segs = sb.sequence(acc)
 
-    def origin(e):
-        """what kind of scope is appended: classified by where the value comes from"""
+    def _defs_text(e, depth=0) -> str:
+        """text of an expression with the definitions of the locals it names (two levels): where a scope comes from"""
         t = norm(e)
-        if isinstance(e, ast.Call) and callee(e) == "_scope_from_attrset":
-            return "rec-self"
-        if isinstance(e, ast.Name):
-            defs = [d for d in ast.walk(sfo.node) if isinstance(d, (ast.Assign, ast.AnnAssign)) and norm(d.targets[0] if isinstance(d, ast.Assign) else d.target) == e.id
-                    and getattr(d, "value", None) is not None]
-            txt = " ".join(norm(d.value) for d in defs)
-            if "function_call_scope(" in txt:
-                return "formals"
-            if ".scopes" in txt and "inherited" in txt or "_get_context" in txt:
-                return "inherited"
-            if "_scope_from_attrset(" in txt or "environment" in txt:
-                return "with-env"
-            uses = " ".join(norm(x) for x in ast.walk(sfo.node) if isinstance(x, ast.Call) and isinstance(x.func, ast.Attribute)
-                            and norm(x.func.value) == e.id and x.func.attr == "append")
-            if "_as_scope(" in uses or "layer" in uses:
-                return "own-layers"
-        return "?" + t[:30]
+        if depth < 2:
+            for nm in {x.id for x in ast.walk(e) if isinstance(x, ast.Name)}:
+                for d in ast.walk(sfo.node):
+                    if isinstance(d, (ast.Assign, ast.AnnAssign)) and getattr(d, "value", None) is not None \
+                            and norm(d.targets[0] if isinstance(d, ast.Assign) else d.target) == nm:
+                        t += " " + _defs_text(d.value, depth + 1)
+                    elif isinstance(d, ast.For) and norm(d.target) == nm:
+                        t += " " + _defs_text(d.iter, depth + 1)
+        return t
 
-    order = [origin(e) for _, e in seq]
+    owner_p = sfo.params()[0]
+
+    def origin(seg):
+        exprs = [x for x in (seg[1], seg[3] if seg[0] == "each" else None) if x is not None]
+        t = " ".join(_defs_text(x) for x in exprs)
+        first = norm(exprs[0])
+        if "function_call_scope(" in t:
+            return "formals"
+        if first.startswith(f"_scope_from_attrset({owner_p}"):
+            return "rec-self"
+        if "environment" in t or ("_scope_from_attrset(" in t and f"_scope_from_attrset({owner_p}" not in t):
+            return "with-env"
+        if "_collect_scopes_from_layers(" in t or ".stack" in t or f"_as_scope({owner_p}.scope" in t or f"_as_scope(getattr({owner_p}, 'scope'" in t:
+            return "own-layers"
+        if "_get_context(" in t and ".scopes" in t:
+            return "inherited"
+        return "?" + first[:30]
+
+    order = []
+    for seg in segs or []:
+        k = origin(seg)
+        if not order or order[-1] != k:
+            order.append(k)
     want_order = ["inherited", "own-layers", "rec-self", "with-env", "formals"]
     r5.instances += 1
-    ok = order == want_order
-    r5.ob(ok, {"scopes_for_owner_appends": order})
-    if not ok:
-        res.add("R-C10-5", ("scopes_for_owner", "producer order"), sfo.loc(),
-                f"scopes_for_owner builds the chain as {order}; expected outer-to-inner {want_order}")
+    if segs is None or any(k.startswith("?") for k in order):
+        res.unclass(f"scopes_for_owner: how `{acc}` is put together was not recognised ({order})")
+    else:
+        ok = order == want_order
+        r5.ob(ok, {"scopes_for_owner_appends": order})
+        if not ok:
+            res.add("R-C10-5", ("scopes_for_owner", "producer order"), sfo.loc(),
+                    f"scopes_for_owner builds the chain as {order}; expected outer-to-inner {want_order}")
     for c in ast.walk(sfo.node):
         if isinstance(c, ast.Call) and callee(c) == "function_call_scope":
             r5.instances += 1
@@ -402,8 +430,9 @@ def run(prog: Program) -> Results:
                         ok = norm(a1) == outer_p
                         want = outer_p
                     else:
+                        from sa.seqexpr import canon as _canon, appended as _appended
                         ds = [d for d in ast.walk(rib.node) if isinstance(d, ast.Assign) and norm(d.targets[0]) == norm(a1)]
-                        ok = bool(ds) and all(norm(d.value).startswith(f"tuple(list({chain_p}) + [") for d in ds)
+                        ok = bool(ds) and all(_canon(d.value) == _appended(chain_p) for d in ds)
                         want = f"tuple(list({chain_p}) + [<source scope>])"
                     r5.ob(ok, {"site": rib.key, "continuation": norm(c)[:60], "plain_inherit": in_plain})
                     if not ok:
@@ -463,12 +492,20 @@ def run(prog: Program) -> Results:
     ctx = [d for d in ast.walk(gi.node) if isinstance(d, ast.Assign) and "scopes_for_owner(self)" in norm(d.value)]
     def _own_scope_last(v) -> bool:
         # tuple(list(scopes_for_owner(self)) + [<the set's own scope>]) with the own scope bound to a local or written in place
-        if not (isinstance(v, ast.Call) and callee(v) == "tuple" and v.args and isinstance(v.args[0], ast.BinOp) and isinstance(v.args[0].op, ast.Add)):
+        # either spelling: tuple(list(X) + [y]) or (*X, y)
+        if isinstance(v, ast.Call) and callee(v) == "tuple" and v.args and isinstance(v.args[0], ast.BinOp) and isinstance(v.args[0].op, ast.Add):
+            left, right = v.args[0].left, v.args[0].right
+            if isinstance(left, ast.Call) and callee(left) in ("list", "tuple") and left.args:
+                left = left.args[0]
+            if not (isinstance(right, (ast.List, ast.Tuple)) and len(right.elts) == 1):
+                return False
+            el = right.elts[0]
+        elif isinstance(v, (ast.Tuple, ast.List)) and len(v.elts) == 2 and isinstance(v.elts[0], ast.Starred) and not isinstance(v.elts[1], ast.Starred):
+            left, el = v.elts[0].value, v.elts[1]
+        else:
             return False
-        left, right = v.args[0].left, v.args[0].right
-        if norm(left) != "list(scopes_for_owner(self))" or not (isinstance(right, ast.List) and len(right.elts) == 1):
+        if norm(left) != "scopes_for_owner(self)":
             return False
-        el = right.elts[0]
         if isinstance(el, ast.Call):
             return norm(el).startswith("Scope(self.values")
         return any(isinstance(d, ast.Assign) and norm(d.targets[0]) == norm(el) and norm(d.value).startswith("Scope(self.values") for d in ast.walk(gi.node))
